@@ -60,15 +60,15 @@ def fromBuffer (data : Bits) (length : Option Int) : Except Err Store :=
     if l.toNat < data.length then .ok ⟨data.take l.toNat, none⟩
     else .ok ⟨data, none⟩                     -- the store holds exactly the wanted bits: modified_length is reset
 
-/-- `Bits._setfile(filename, length, offset)` (bits.py:544) for `offset ≥ 0`. -/
+/-- `Bits._setfile(filename, length, offset)` (bits.py:544). -/
 def fromFile (data : Bits) (offset length : Option Int) : Except Err Store :=
   let off := offset.getD 0
+  if off < 0 then .error .value else
   if off = 0 then fromBuffer data length else
   -- offset given: always read into memory
+  if off > data.length then .error .value else
   match length with
-  | none =>
-    if off.toNat > data.length then .error .value
-    else (Py.getSlice data (some off) none none).map ofBits
+  | none => (Py.getSlice data (some off) none none).map ofBits
   | some l =>
     match Py.getSlice data (some off) (some (off + l)) none with
     | .error e => .error e
@@ -80,6 +80,9 @@ def fromBytes (data : Bits) (offset length : Option Int) : Except Err Store :=
   | none, none => .ok (ofBits data)
   | _, _ =>
     let off := offset.getD 0
+    if off < 0 then .error .value else
+    if (match length with | some l => decide (l < 0) | none => false) then .error .value else
+    if off > data.length then .error .value else
     match length with
     | none => (Py.getSlice data (some off) (some (off + ((data.length : Int) - off))) none).map ofBits
     | some l =>
@@ -92,6 +95,9 @@ def fromBytesIO (data : Bits) (offset length : Option Int) : Except Err Store :=
   | none, none => .ok (ofBits data)
   | _, _ =>
     let off0 := offset.getD 0
+    if off0 < 0 then .error .value else
+    if (match length with | some l => decide (l < 0) | none => false) then .error .value else
+    if off0 > data.length then .error .value else
     let l := length.getD ((data.length : Int) - off0)
     let byteoffset := off0 / 8
     let off := off0 % 8
@@ -104,6 +110,8 @@ def fromBytesIO (data : Bits) (offset length : Option Int) : Except Err Store :=
 /-- `Bits._setbitarray(ba, length, offset)` (bits.py:565). -/
 def fromBitarray (data : Bits) (offset length : Option Int) : Except Err Store :=
   let off := offset.getD 0
+  if off < 0 then .error .value else
+  if (match length with | some l => decide (l < 0) | none => false) then .error .value else
   if off > data.length then .error .value else
   match length with
   | none => (Py.getSlice data (some off) none none).map ofBits
